@@ -111,8 +111,10 @@ def run_unit(unit, ctx):
                 u = {c: rng.gauss(0, 1) for c in defn["control"]}
                 try:
                     r = ekf.process_model(dt, st, cov, ekf.Control(**u))
-                except AssertionError:
-                    R.stats.inc("python_side_covariance_assertion")
+                except (AssertionError, np.linalg.LinAlgError, FloatingPointError, OverflowError):
+                    # the free-running Python sequence left the well-conditioned region (C09's business):
+                    # the sequence is cut here and only the steps so far are compared
+                    R.stats.inc("python_side_left_well_conditioned_region")
                     break
                 steps.append(("PM", dt, u, x_in, P_in, monitors.vec_dict(r.state), monitors.cov_matrix(r.covariance, names).tolist()))
             else:
@@ -123,8 +125,10 @@ def run_unit(unit, ctx):
                 z = {q: float(hx[j, 0]) + rng.gauss(0, 1) * mag for j, q in enumerate([str(t) for t in ekf.sensor_models[sn].readings])}
                 try:
                     r = ekf.sensor_model(st, cov, sensor_key=sn, sensor_reading=ekf.make_reading(sn, **z))
-                except AssertionError:
-                    R.stats.inc("python_side_covariance_assertion")
+                except (AssertionError, np.linalg.LinAlgError, FloatingPointError, OverflowError):
+                    # the free-running Python sequence left the well-conditioned region (C09's business):
+                    # the sequence is cut here and only the steps so far are compared
+                    R.stats.inc("python_side_left_well_conditioned_region")
                     break
                 same = np.array_equal(r.state.data, st.data) and np.array_equal(r.covariance.data, cov.data)
                 y = {q: float(ekf.innovations[sn][j, 0]) for j, q in enumerate([str(t) for t in ekf.sensor_models[sn].readings])}
